@@ -390,9 +390,10 @@ func (p *provider) updateStatus(
 
 	modRS.Status.ActiveIn = x.IfThenElse(len(modRS.Status.ActiveIn) == 0, "0/0", modRS.Status.ActiveIn)
 
-	usedBy := strings.Split(modRS.Status.ActiveIn, "/")
-	loadedBy, _ := strconv.Atoi(usedBy[0])
-	matchedBy, _ := strconv.Atoi(usedBy[1])
+	// the value is not necessarily written by heimdall. So, it might be malformed
+	loaded, matched, _ := strings.Cut(modRS.Status.ActiveIn, "/")
+	loadedBy, _ := strconv.Atoi(loaded)
+	matchedBy, _ := strconv.Atoi(matched)
 
 	modRS.Status.ActiveIn = fmt.Sprintf("%d/%d", loadedBy+usageIncrement, matchedBy+matchIncrement)
 
